@@ -178,6 +178,18 @@ register('C07',
          'Coq proof (simulation between configurations; machine invariant) + twin-run differential testing + vm_compute replay',
          'DESIGN.md §7 C07')
 
+register('C04',
+         'Coq theorems over arbitrary version and association-version tables satisfying the table primary key: the SQL-shaped '
+         'relationship queries (EXISTS / GROUP BY / HAVING MAX; scalar MAX subquery; association EXISTS nested in EXISTS) return '
+         'exactly - one-to-many / one-to-one / dynamic: the children whose as-of version points at the owner and is not a DELETE; '
+         'many-to-one: the parent\'s as-of version unless deleted or the key is NULL; many-to-many: targets whose newest association '
+         'row at or before the owner\'s transaction is not a DELETE, taken as of that transaction, not deleted. Every reflected '
+         'relationship (incl. the non-versioned target) is read on every version object of random table contents each run and '
+         'compared with the model and with a positional specification.',
+         COMMON_NOTE + 'Single-column keys/foreign keys; custom primaryjoin shapes are not modelled. The end-to-end reading relies on C01.',
+         'Coq proof (max/filter characterisations shared with C08) + vm_compute correspondence against the ORM relationship accessors',
+         'DESIGN.md §7 C04')
+
 ALL = ['C%02d' % i for i in range(1, 21)]
 
 
